@@ -476,18 +476,16 @@ int main(int argc, char **argv) {
     int live = 1;
     while (live > 0) {
         pid_t pid = waitpid(-1, &status, __WALL);
+        if (timed_out) { /* also when the tracee keeps us busy (a spinning loop of system calls) */
+            fprintf(logf, "{\"ev\":\"timeout\",\"win\":%d,\"op\":", win_open ? win_id : 0);
+            json_str(logf, win_op, strlen(win_op));
+            fprintf(logf, "}\n");
+            fflush(logf);
+            kill_all();
+            return 4;
+        }
         if (pid < 0) {
-            if (errno == EINTR) {
-                if (timed_out) {
-                    fprintf(logf, "{\"ev\":\"timeout\",\"win\":%d,\"op\":", win_open ? win_id : 0);
-                    json_str(logf, win_op, strlen(win_op));
-                    fprintf(logf, "}\n");
-                    fflush(logf);
-                    kill_all();
-                    return 4;
-                }
-                continue;
-            }
+            if (errno == EINTR) continue;
             if (errno == ECHILD) break;
             die("waitpid: %s", strerror(errno));
         }
